@@ -116,13 +116,6 @@ def srcNodup : Op → Bool
   | .setvs _ src | .matchvs _ src | .setallv _ src => decide (src.map (·.1)).Nodup
   | _ => true
 
-/-- the slots that must hold an object for the operation to reach the library -/
-def needs : Op → List Nat
-  | .new .. => []
-  | .copy s _ => [s]
-  | .assign s d => [s, d]
-  | op => [op.slot]
-
 def parseOut (t : List String) : Option Out :=
   match t with
   | ["ok"] => some .ok
@@ -186,7 +179,7 @@ def step (s : St) (opToks : List String) (impl : Option (List String)) : St × S
   | none => (s, "bad-op", "-")
   | some op =>
     if !srcNodup op then (s, "bad-op", "-") else
-    if !(needs op).all (fun k => (s.m.objs k).isSome) then
+    if !op.needs.all (fun k => (s.m.objs k).isSome) then
       -- the script names an empty slot: not a library outcome
       (s, "absent" ++ String.join ((viewOf s.m).map showSV), "-") else
     let (m', out) := Alias.step s.m op
